@@ -5,6 +5,7 @@ package main
 
 import (
 	"fmt"
+	"sort"
 	"go/ast"
 	"go/parser"
 	"go/token"
@@ -445,7 +446,7 @@ func (cs *Contracts) resolveType(p *packages.Package, src string, file string, l
 	if t := try(p.Types); t != nil {
 		return t
 	}
-	for _, ip := range p.Imports {
+	for _, ip := range dotImportsFirst(p) {
 		if strings.HasPrefix(ip.PkgPath, modulePath) {
 			if t := try(ip.Types); t != nil {
 				return t
@@ -494,7 +495,7 @@ func lookupTypeName(p *packages.Package, e ast.Expr) types.Type {
 	if t := try(p.Types); t != nil {
 		return t
 	}
-	for _, ip := range p.Imports {
+	for _, ip := range dotImportsFirst(p) {
 		if strings.HasPrefix(ip.PkgPath, modulePath) {
 			if t := try(ip.Types); t != nil {
 				return t
@@ -537,4 +538,37 @@ func splitTop(s string) []string {
 	}
 	out = append(out, strings.TrimSpace(s[start:]))
 	return out
+}
+
+// dotImportsFirst: the packages imported by p, dot-imported ones first, then package
+// types, then the rest in path order (unqualified names in contracts resolve like Go
+// would for dot imports; the fallback lets other packages name types of package types).
+func dotImportsFirst(p *packages.Package) []*packages.Package {
+	dots := map[string]bool{}
+	for _, f := range p.Syntax {
+		for _, im := range f.Imports {
+			if im.Name != nil && im.Name.Name == "." {
+				path, _ := strconv.Unquote(im.Path.Value)
+				dots[path] = true
+			}
+		}
+	}
+	var first, second, rest []*packages.Package
+	var paths []string
+	for path := range p.Imports {
+		paths = append(paths, path)
+	}
+	sort.Strings(paths)
+	for _, path := range paths {
+		ip := p.Imports[path]
+		switch {
+		case dots[path]:
+			first = append(first, ip)
+		case path == modulePath+"/types":
+			second = append(second, ip)
+		default:
+			rest = append(rest, ip)
+		}
+	}
+	return append(append(first, second...), rest...)
 }
